@@ -104,10 +104,10 @@ class C13(runner.Check):
 			"interleaving)", "numpy.empty contents"],
 	}
 	tiers = {
-		"quick": {"legs": [("sim", 3000), ("real", 40)], "wall_cap_s": 420,
-			"fresh_procs": 1, "chunk": 25},
-		"thorough": {"legs": [("sim", 60000), ("real", 600)], "wall_cap_s": 3000,
-			"fresh_procs": 4, "chunk": 100},
+		"quick": {"legs": [("sim", 12000), ("real", 60)], "wall_cap_s": 600,
+			"fresh_procs": 1, "chunk": 50},
+		"thorough": {"legs": [("sim", 1000000), ("real", 6000)], "wall_cap_s": 3600,
+			"fresh_procs": 4, "chunk": 500},
 	}
 
 	def __init__(self):
